@@ -137,8 +137,7 @@ func TestC09(t *testing.T) {
 	var rc restartCase
 	if loadReplay(t, &rc) {
 		if msg := checkRestart(&rc); msg != "" {
-			st.Violate(msg, &rc)
-			t.Fatal(msg)
+			fail(st, t, msg, &rc)
 		}
 		return
 	}
@@ -178,8 +177,7 @@ func TestC09(t *testing.T) {
 			st.Sample(s)
 		}
 		if msg := checkRestart(c); msg != "" {
-			st.Violate(msg, c)
-			rt.Fatalf("%s", msg)
+			fail(st, rt, msg, c)
 		}
 	})
 }
